@@ -226,8 +226,14 @@ func execute(c Case) *pt.Failure {
 		}
 		return pt.Failf(what, "bookkeeping left behind: futures %d→%d, merged %d→%d", f0, f1, m0, m1)
 	}
-	if p := parked(); p > 0 {
-		return pt.Failf("C14/parked-goroutine", "%d goroutine frames parked in response notification", p)
+	// (a goroutine that is merely on its way out of the notification is not parked: look again for a while)
+	p := parked()
+	for i := 0; i < 100 && p > 0; i++ {
+		time.Sleep(10 * time.Millisecond)
+		p = parked()
+	}
+	if p > 0 {
+		return pt.Failf("C14/parked-goroutine", "%d goroutine frames parked in response notification (for more than a second)", p)
 	}
 	return nil
 }
